@@ -318,16 +318,53 @@ func lockFacts(ms map[string][]method, m method) (purges bool, whyP string, wipe
 	r := m.recvName
 	body := m.decl.Body
 
+	// every top-level loop over the scoped managers must run its whole body for
+	// every scope: no continue / break / return / goto inside it
+	for _, st := range body.List {
+		rs, ok := st.(*ast.RangeStmt)
+		if !ok || str(rs.X) != r+".scopedManagers" {
+			continue
+		}
+		ast.Inspect(rs.Body, func(n ast.Node) bool {
+			switch x := n.(type) {
+			case *ast.FuncLit:
+				return false
+			case *ast.BranchStmt:
+				die("lock(): `%s` inside the loop over %s.scopedManagers: a scope (or part of its wipes) may be skipped; the model has no such case", x.Tok, r)
+			case *ast.ReturnStmt:
+				die("lock(): return inside the loop over %s.scopedManagers; the model has no such case", r)
+			}
+			return true
+		})
+	}
+
 	// --- privKeyCache
+	// (a top-level loop over the scoped managers; the purge is one of its own statements, not nested in a condition)
 	ast.Inspect(body, func(n ast.Node) bool {
 		rs, ok := n.(*ast.RangeStmt)
 		if !ok || str(rs.X) != r+".scopedManagers" || rs.Value == nil {
 			return true
 		}
+		top := false
+		for _, st := range body.List {
+			if st == ast.Stmt(rs) {
+				top = true
+			}
+		}
+		if !top {
+			return true
+		}
 		x := str(rs.Value)
-		if purgesCache(rs.Body, x) {
-			purges = true
-			whyP = "lock() purges " + x + ".privKeyCache for every scoped manager"
+		for _, st := range rs.Body.List {
+			switch st.(type) {
+			case *ast.ExprStmt, *ast.AssignStmt:
+				if purgesCache(st, x) {
+					purges = true
+					whyP = "lock() purges " + x + ".privKeyCache for every scoped manager"
+				}
+			}
+		}
+		if purges {
 			return true
 		}
 		// a helper method of ScopedKeyManager
@@ -378,6 +415,40 @@ func lockFacts(ms map[string][]method, m method) (purges bool, whyP string, wipe
 	if !ok || len(as.Lhs) != 1 {
 		die("lock(): type switch is not of the form `switch addr := ma.(type)`")
 	}
+	// The wipes may sit in one loop over the scoped managers or in several
+	// (the scopes are independent and the wipes idempotent), but each must
+	// run for EVERY scoped manager and every entry: the type switch directly
+	// in `for _, ma := range x.addrs` directly in `for _, x := range
+	// m.scopedManagers` at the top level of lock(), unconditionally.
+	{
+		ta, ok := as.Rhs[0].(*ast.TypeAssertExpr)
+		if !ok || ta.Type != nil {
+			die("lock(): type switch is not of the form `switch addr := ma.(type)`")
+		}
+		subject := str(ta.X)
+		placed := false
+		for _, st := range body.List {
+			outer, ok := st.(*ast.RangeStmt)
+			if !ok || str(outer.X) != r+".scopedManagers" || outer.Value == nil {
+				continue
+			}
+			x := str(outer.Value)
+			for _, in := range outer.Body.List {
+				inner, ok := in.(*ast.RangeStmt)
+				if !ok || str(inner.X) != x+".addrs" || inner.Value == nil || str(inner.Value) != subject {
+					continue
+				}
+				for _, b := range inner.Body.List {
+					if b == ast.Stmt(ts) {
+						placed = true
+					}
+				}
+			}
+		}
+		if !placed {
+			die("lock(): the type switch is not directly inside `for _, %s := range x.addrs` inside a top-level `for _, x := range %s.scopedManagers`; cannot establish that every cached address is wiped", subject, r)
+		}
+	}
 	bound := str(as.Lhs[0])
 	wiped := map[string]bool{}
 	for _, cl := range ts.Body.List {
@@ -422,33 +493,53 @@ func lockFacts(ms map[string][]method, m method) (purges bool, whyP string, wipe
 		die("lock(): exactly one of *witnessScriptAddress / *taprootScriptAddress is wiped; the model has no such case")
 	}
 
-	// --- lastExternalAddr / lastInternalAddr
+	// --- lastExternalAddr / lastInternalAddr: `if a, ok := acctInfo.last..Addr.(*managedAddress); ok { a.lock() }`
+	// directly in `for _, acctInfo := range x.acctInfo` directly in a top-level loop over the scoped managers
 	got := map[string]bool{}
-	ast.Inspect(body, func(n ast.Node) bool {
-		is, ok := n.(*ast.IfStmt)
-		if !ok || is.Init == nil {
+	var lastIfs []ast.Node
+	for _, st := range body.List {
+		outer, ok := st.(*ast.RangeStmt)
+		if !ok || str(outer.X) != r+".scopedManagers" || outer.Value == nil {
+			continue
+		}
+		x := str(outer.Value)
+		for _, in := range outer.Body.List {
+			inner, ok := in.(*ast.RangeStmt)
+			if !ok || str(inner.X) != x+".acctInfo" || inner.Value == nil {
+				continue
+			}
+			for _, b := range inner.Body.List {
+				lastIfs = append(lastIfs, b)
+			}
+		}
+	}
+	for _, n := range lastIfs {
+		func(n ast.Node) bool {
+			is, ok := n.(*ast.IfStmt)
+			if !ok || is.Init == nil {
+				return true
+			}
+			a, ok := is.Init.(*ast.AssignStmt)
+			if !ok || len(a.Lhs) != 2 || len(a.Rhs) != 1 {
+				return true
+			}
+			ta, ok := a.Rhs[0].(*ast.TypeAssertExpr)
+			if !ok || ta.Type == nil || str(ta.Type) != "*managedAddress" {
+				return true
+			}
+			sel, ok := ta.X.(*ast.SelectorExpr)
+			if !ok {
+				return true
+			}
+			if str(is.Cond) != str(a.Lhs[1]) {
+				return true
+			}
+			if containsCall(is.Body, str(a.Lhs[0])+".lock") {
+				got[sel.Sel.Name] = true
+			}
 			return true
-		}
-		a, ok := is.Init.(*ast.AssignStmt)
-		if !ok || len(a.Lhs) != 2 || len(a.Rhs) != 1 {
-			return true
-		}
-		ta, ok := a.Rhs[0].(*ast.TypeAssertExpr)
-		if !ok || ta.Type == nil || str(ta.Type) != "*managedAddress" {
-			return true
-		}
-		sel, ok := ta.X.(*ast.SelectorExpr)
-		if !ok {
-			return true
-		}
-		if str(is.Cond) != str(a.Lhs[1]) {
-			return true
-		}
-		if containsCall(is.Body, str(a.Lhs[0])+".lock") {
-			got[sel.Sel.Name] = true
-		}
-		return true
-	})
+		}(n)
+	}
 	e, i := got["lastExternalAddr"], got["lastInternalAddr"]
 	switch {
 	case e && i:
@@ -753,10 +844,94 @@ func privKeyChecksFirst(priv, unlock method) (bool, string) {
 
 // ---- F9 -------------------------------------------------------------------
 
+// deferredLockOnError recognises, syntactically, the equivalent of calling
+// <recv>.lock() by hand in front of every error return:
+//
+//	func (m *Manager) Unlock(..) (err error) {        // ONE named result of type error
+//		...
+//		defer func() {                               // a top-level statement
+//			if err != nil {                          // exactly this statement
+//				m.lock()                             // exactly this call
+//			}
+//		}()
+//
+// A `return X` assigns X to the named result before deferred functions run
+// (also where a local err shadows it), so every return of a non-nil error that
+// comes after the defer statement locks the manager.  Returns the index of the
+// defer statement among the top-level statements, or -1.
+func deferredLockOnError(m method) int {
+	res := m.decl.Type.Results
+	if res == nil || len(res.List) != 1 || len(res.List[0].Names) != 1 || str(res.List[0].Type) != "error" {
+		return -1
+	}
+	name := res.List[0].Names[0].Name
+	for i, st := range m.decl.Body.List {
+		d, ok := st.(*ast.DeferStmt)
+		if !ok || len(d.Call.Args) != 0 {
+			continue
+		}
+		fl, ok := d.Call.Fun.(*ast.FuncLit)
+		if !ok || (fl.Type.Params != nil && len(fl.Type.Params.List) != 0) || (fl.Type.Results != nil && len(fl.Type.Results.List) != 0) {
+			continue
+		}
+		if len(fl.Body.List) != 1 {
+			continue
+		}
+		is, ok := fl.Body.List[0].(*ast.IfStmt)
+		if !ok || is.Init != nil || is.Else != nil || str(is.Cond) != name+" != nil" || len(is.Body.List) != 1 {
+			continue
+		}
+		es, ok := is.Body.List[0].(*ast.ExprStmt)
+		if !ok {
+			continue
+		}
+		c, ok := es.X.(*ast.CallExpr)
+		if !ok || str(c.Fun) != m.recvName+".lock" || len(c.Args) != 0 {
+			continue
+		}
+		// nothing between the defer and the end of the function may call
+		// recover() or re-assign the result outside a return (a bare
+		// `return` would hand back whatever the named result holds)
+		bad := false
+		for _, later := range m.decl.Body.List[i+1:] {
+			ast.Inspect(later, func(n ast.Node) bool {
+				switch x := n.(type) {
+				case *ast.ReturnStmt:
+					if len(x.Results) == 0 {
+						bad = true
+					}
+				case *ast.CallExpr:
+					if str(x.Fun) == "recover" {
+						bad = true
+					}
+				case *ast.FuncLit:
+					return false
+				}
+				return !bad
+			})
+		}
+		if bad {
+			die("%s: a deferred `if %s != nil { %s.lock() }` is followed by a bare return or recover(); cannot establish that every failure locks", m.decl.Name.Name, name, m.recvName)
+		}
+		return i
+	}
+	return -1
+}
+
 func unlockLoadsQueued(m method) (bool, string) {
 	r := m.recvName
 	var res *bool
 	why := ""
+	// index of the deferred lock-on-error (if any) and of each top-level statement
+	deferIdx := deferredLockOnError(m)
+	topIndex := func(n ast.Node) int {
+		for i, st := range m.decl.Body.List {
+			if st.Pos() <= n.Pos() && n.End() <= st.End() {
+				return i
+			}
+		}
+		return -1
+	}
 	ast.Inspect(m.decl.Body, func(n ast.Node) bool {
 		outer, ok := n.(*ast.RangeStmt)
 		if !ok || str(outer.X) != r+".scopedManagers" || outer.Value == nil {
@@ -804,15 +979,18 @@ func unlockLoadsQueued(m method) (bool, string) {
 			if !okCall {
 				die("Unlock: the loop over %s.deriveOnUnlock before the account loop does not call %s.loadAccountInfo(ns, %s.managedAddr.InternalAccount())", x, x, v)
 			}
-			// on error: m.lock(); return err
+			// on error: m.lock(); return err - by hand, or through a deferred
+			// `if err != nil { m.lock() }` on the named result registered before this loop
 			guard := false
+			covered := deferIdx >= 0 && deferIdx < topIndex(outer)
 			for _, b := range rs.Body.List {
-				if is, ok := b.(*ast.IfStmt); ok && str(is.Cond) == "err != nil" && containsCall(is.Body, r+".lock") && returnsError(is.Body) {
+				if is, ok := b.(*ast.IfStmt); ok && str(is.Cond) == "err != nil" && is.Else == nil && returnsError(is.Body) &&
+					(containsCall(is.Body, r+".lock") || covered) {
 					guard = true
 				}
 			}
 			if !guard {
-				die("Unlock: the preload loop does not `if err != nil { %s.lock(); return err }`", r)
+				die("Unlock: the preload loop does not `if err != nil { %s.lock(); return err }` (and no deferred `if err != nil { %s.lock() }` on a named error result precedes it)", r, r)
 			}
 			pre = true
 		}
